@@ -23,12 +23,18 @@ use vstd::std_specs::cmp::OrdSpec;
 //@map /PublicKey::from_slice\(&m\.remote_per_commitment_point\.0\)/ => vx_pubkey_from_wire(&m.remote_per_commitment_point)
 //@map /SecretKey::from_slice\(&m\.commitment_secret\.0\)/ => vx_secret_from_wire(&m.commitment_secret)
 //@map /ecdsa::Signature::from_compact\(&m\.signature\.signature\.0\)/ => vx_sig_from_wire(&m.signature)
+//@map /ecdsa::Signature::from_compact\(&s\.signature\.0\)/ => vx_sig_from_wire(s)
 //@map /EcdsaSighashType::All as u8/ => vx_sighash_all()
+//@map /EcdsaSighashType::SinglePlusAnyoneCanPay as u8/ => vx_sighash_single_acp()
+//@map /(\w+)\.map\(\|s\| DisclosedSecret\(s\[\.\.\]\.try_into\(\)\.(?:unwrap|vx_expect)\(\)\)\)/ => vx_disclose(\1)
+//@map /PubKey\(next_per_commitment_point\.serialize\(\)\)/ => vx_wire_of_point(next_per_commitment_point)
 verus! {
 
 //@@TAGS
 
 //@const vls-protocol/src/msgs.rs :: PROTOCOL_VERSION_REVOKE
+impl Status { #[verifier::external_body] pub fn invalid_argument<B>(msg: B) -> Status { unimplemented!() } }
+#[verifier::external_body] pub fn vx_sighash_single_acp() -> (r: u8) { unimplemented!() }
 
 #[verifier::external_body] pub struct VxReply { _p: u8 }
 #[verifier::external_body] pub struct VxChanView { _p: u8 }
@@ -142,6 +148,13 @@ pub uninterp spec fn chan_signed_cp2(c: VxChanView, point: PublicKey, n: u64, fe
     r: Result<(Signature, Vec<Signature>), Status>, after: VxChanView) -> bool;
 pub uninterp spec fn chan_validated_cp_revocation(c: VxChanView, n: u64, secret: SecretKey, r: Result<(), Status>, after: VxChanView) -> bool;
 pub uninterp spec fn chan_signed_holder2(c: VxChanView, n: u64, r: Result<Signature, Status>, after: VxChanView) -> bool;
+pub uninterp spec fn chan_point(c: VxChanView, n: u64, r: Result<PublicKey, Status>) -> bool;
+pub uninterp spec fn chan_validated_holder(c: VxChanView, n: u64, feerate: u32, to_local: u64, to_remote: u64, offered: Seq<HTLCInfo2>, received: Seq<HTLCInfo2>,
+    sig: Signature, htlc_sigs: Seq<Signature>, after: VxChanView) -> bool;
+pub uninterp spec fn chan_revoked(c: VxChanView, n: u64, r: Result<(PublicKey, Option<SecretKey>), Status>, after: VxChanView) -> bool;
+pub uninterp spec fn chan_activated(c: VxChanView, r: Result<PublicKey, Status>, after: VxChanView) -> bool;
+pub uninterp spec fn chan_signed_mutual_close2(c: VxChanView, to_holder: u64, to_cp: u64, holder_script: Option<ScriptBuf>, cp_script: Option<ScriptBuf>, path: VxPath,
+    r: Result<Signature, Status>, after: VxChanView) -> bool;
 // the channel registered in the node under this id is in this state
 pub uninterp spec fn node_channel(n: VxNodeH, id: ChannelId, c: VxChanView) -> bool;
 
@@ -159,7 +172,56 @@ impl VxChan {
     #[verifier::external_body]
     pub fn sign_holder_commitment_tx_phase2(&mut self, commitment_number: u64) -> (r: Result<Signature, Status>)
         ensures chan_signed_holder2(old(self)@, commitment_number, r, final(self)@) { unimplemented!() }
+    #[verifier::external_body]
+    pub fn get_per_commitment_point(&self, commitment_number: u64) -> (r: Result<PublicKey, Status>) ensures chan_point(self@, commitment_number, r) { unimplemented!() }
+    #[verifier::external_body]
+    pub fn validate_holder_commitment_tx_phase2(&mut self, commitment_number: u64, feerate_per_kw: u32, to_holder_value_sat: u64, to_counterparty_value_sat: u64,
+        offered_htlcs: Vec<HTLCInfo2>, received_htlcs: Vec<HTLCInfo2>, counterparty_commit_sig: &Signature, counterparty_htlc_sigs: &Vec<Signature>) -> (r: Result<(), Status>)
+        ensures r.is_ok() ==> chan_validated_holder(old(self)@, commitment_number, feerate_per_kw, to_holder_value_sat, to_counterparty_value_sat, offered_htlcs@, received_htlcs@,
+                    *counterparty_commit_sig, counterparty_htlc_sigs@, final(self)@),
+                r.is_err() ==> final(self)@ == old(self)@,
+    { unimplemented!() }
+    #[verifier::external_body]
+    pub fn revoke_previous_holder_commitment(&mut self, new_current_commitment_number: u64) -> (r: Result<(PublicKey, Option<SecretKey>), Status>)
+        ensures chan_revoked(old(self)@, new_current_commitment_number, r, final(self)@) { unimplemented!() }
+    #[verifier::external_body]
+    pub fn activate_initial_commitment(&mut self) -> (r: Result<PublicKey, Status>) ensures chan_activated(old(self)@, r, final(self)@) { unimplemented!() }
+    #[verifier::external_body]
+    pub fn sign_mutual_close_tx_phase2(&mut self, to_holder_value_sat: u64, to_counterparty_value_sat: u64, holder_script: &Option<ScriptBuf>,
+        counterparty_script: &Option<ScriptBuf>, holder_wallet_path_hint: &VxPath) -> (r: Result<Signature, Status>)
+        ensures chan_signed_mutual_close2(old(self)@, to_holder_value_sat, to_counterparty_value_sat, *holder_script, *counterparty_script, *holder_wallet_path_hint, r, final(self)@)
+    { unimplemented!() }
 }
+// wire forms of what goes into replies
+pub uninterp spec fn wire_of_secret(s: SecretKey) -> DisclosedSecret;
+pub uninterp spec fn wire_of_point(p: PublicKey) -> PubKey;
+#[verifier::external_body] pub fn vx_disclose(s: Option<SecretKey>) -> (r: Option<DisclosedSecret>)
+    ensures r.is_some() == s.is_some(), s.is_some() ==> r->Some_0 == wire_of_secret(s->Some_0) { unimplemented!() }
+#[verifier::external_body] pub fn vx_wire_of_point(p: PublicKey) -> (r: PubKey) ensures r == wire_of_point(p) { unimplemented!() }
+pub open spec fn sigs_of_wire(s: Seq<BitcoinSignature>) -> Seq<Signature> { s.map_values(|b: BitcoinSignature| sig_of_wire(b.signature)) }
+// `m.htlc_signatures.iter().map(CLOSURE).collect()`, CLOSURE = htlc_sig_from_wire below (std semantics: each element mapped, in order)
+#[verifier::external_body] pub fn vx_htlc_sigs_from_wire(a: &VxSigArray) -> (r: Vec<Signature>) ensures r@ == a.v@.map_values(|b: BitcoinSignature| spec_htlc_sig_from_wire(b)) { unimplemented!() }
+pub open spec fn spec_htlc_sig_from_wire(b: BitcoinSignature) -> Signature { sig_of_wire(b.signature) }
+// ScriptBuf::from(bytes) / derivation path of a wire hint
+#[verifier::external_body] pub struct Octets { _p: u8 }
+#[verifier::external_body] pub struct VxPathHint { _p: u8 }
+#[verifier::external_body] pub struct VxPath { _p: u8 }
+impl Octets {
+    pub uninterp spec fn bytes(&self) -> Seq<u8>;
+    #[verifier::external_body] pub fn is_empty(&self) -> (r: bool) ensures r == (self.bytes().len() == 0) { unimplemented!() }
+    #[verifier::external_body] pub fn len(&self) -> (r: usize) ensures r == self.bytes().len() { unimplemented!() }
+}
+pub uninterp spec fn script_of_bytes(b: Seq<u8>) -> ScriptBuf;
+pub uninterp spec fn path_of_hint(h: VxPathHint) -> VxPath;
+#[verifier::external_body] pub fn vx_script_from(b: &Octets) -> (r: ScriptBuf) ensures r == script_of_bytes(b.bytes()) { unimplemented!() }
+#[verifier::external_body] pub fn to_derivation_path(h: &VxPathHint) -> (r: VxPath) ensures r == path_of_hint(*h) { unimplemented!() }
+pub open spec fn script_opt_of(b: Octets) -> Option<ScriptBuf> { if b.bytes().len() == 0 { None } else { Some(script_of_bytes(b.bytes())) } }
+
+//@fn vls-protocol-signer/src/handler.rs :: - :: to_script props=C07
+    ensures r == script_opt_of(*bytes),                                                                       //[C07.handler.empty-script-means-no-output]
+//@sigsub /&Vec<u8>/ => &Octets
+//@sub /ScriptBuf::from\(bytes\.clone\(\)\)/ => vx_script_from(bytes)
+//@end
 #[verifier::external_body]
 pub fn vx_clone_htlcs(v: &Vec<HTLCInfo2>) -> (r: Vec<HTLCInfo2>) ensures r@ == v@ { unimplemented!() }
 
@@ -167,6 +229,10 @@ pub struct SignRemoteCommitmentTx2 { pub remote_per_commitment_point: PubKey, pu
     pub to_remote_value_sat: u64, pub htlcs: VxHtlcArray }
 pub struct ValidateRevocation { pub commitment_number: u64, pub commitment_secret: DisclosedSecret }
 pub struct SignLocalCommitmentTx2 { pub commitment_number: u64 }
+pub struct ValidateCommitmentTx2 { pub commitment_number: u64, pub feerate: u32, pub to_local_value_sat: u64, pub to_remote_value_sat: u64, pub htlcs: VxHtlcArray,
+    pub signature: BitcoinSignature, pub htlc_signatures: VxSigArray }
+pub struct RevokeCommitmentTx { pub commitment_number: u64 }
+pub struct SignMutualCloseTx2 { pub to_local_value_sat: u64, pub to_remote_value_sat: u64, pub local_script: Octets, pub remote_script: Octets, pub local_wallet_path_hint: VxPathHint }
 pub struct ChannelHandler { pub node: VxNodeH, pub channel_id: ChannelId, pub protocol_version: u32, pub rest: VxHandlerRest }
 
 // replies: the reply carries exactly this answer
@@ -175,6 +241,12 @@ pub uninterp spec fn reply_commitment_sig(sig: Signature) -> VxReply;
 pub uninterp spec fn reply_revocation_validated() -> VxReply;
 #[verifier::external_body] pub fn vx_reply_sig_with_htlcs(sig: Signature, htlc_sigs: Vec<Signature>) -> (r: VxReply) ensures r == reply_sig_with_htlcs(sig, htlc_sigs@) { unimplemented!() }
 #[verifier::external_body] pub fn vx_reply_commitment_sig(sig: BitcoinSignature) -> (r: VxReply) ensures forall|s: Signature| sig == wire_of_sig(s) ==> r == reply_commitment_sig(s) { unimplemented!() }
+pub uninterp spec fn reply_validate_commitment(next_point: PubKey, old_secret: Option<DisclosedSecret>) -> VxReply;
+pub uninterp spec fn reply_revoke_commitment(next_point: PubKey, old_secret: DisclosedSecret) -> VxReply;
+pub uninterp spec fn reply_sign_tx(sig: Signature) -> VxReply;
+#[verifier::external_body] pub fn vx_reply_validate_commitment(next_point: PubKey, old_secret: Option<DisclosedSecret>) -> (r: VxReply) ensures r == reply_validate_commitment(next_point, old_secret) { unimplemented!() }
+#[verifier::external_body] pub fn vx_reply_revoke_commitment(next_point: PubKey, old_secret: DisclosedSecret) -> (r: VxReply) ensures r == reply_revoke_commitment(next_point, old_secret) { unimplemented!() }
+#[verifier::external_body] pub fn vx_reply_sign_tx(sig: BitcoinSignature) -> (r: VxReply) ensures forall|s: Signature| sig == wire_of_sig(s) ==> r == reply_sign_tx(s) { unimplemented!() }
 #[verifier::external_body] pub fn vx_reply_revocation_validated() -> (r: VxReply) ensures r == reply_revocation_validated() { unimplemented!() }
 
 impl ChannelHandler {
@@ -256,6 +328,111 @@ impl ChannelHandler {
             && #[trigger] chan_signed_holder2(c0, m.commitment_number, Ok(sig), c1) && r->Ok_0 == reply_commitment_sig(sig),     //[C02.handler.sign-local2-goes-through-the-channel-with-the-messages-number]
 //@sub /(?s)self\.node\.with_channel\(&self\.channel_id, \|chan\| \{.*?\n\s*\}\)\?/ => self.vx_with_channel_sign_local2(&m)?
 //@sub /Ok\(Box::new\(msgs::SignCommitmentTxReply \{ signature: (.*?) \}\)\)/ => Ok(vx_reply_commitment_sig(\1))
+//@end
+
+// ------------------------------------------------ ValidateCommitmentTx2
+//@fn vls-protocol-signer/src/handler.rs :: impl Handler for ChannelHandler :: do_handle closure=1 after="Message::ValidateCommitmentTx2\(m\) =>" as=htlc_sig_from_wire props=C01
+//@sig fn htlc_sig_from_wire(&self, s: &BitcoinSignature) -> (r: Signature)
+    ensures r == spec_htlc_sig_from_wire(*s),
+//@end
+
+//@fn vls-protocol-signer/src/handler.rs :: impl Handler for ChannelHandler :: do_handle closure=2 after="Message::ValidateCommitmentTx2\(m\) =>" as=validate_commitment_tx2_closure props=C01
+//@sig fn validate_commitment_tx2_closure(&self, chan: &mut VxChan, m: &ValidateCommitmentTx2, commit_num: u64, feerate_sat_per_kw: u32, offered_htlcs: &Vec<HTLCInfo2>, received_htlcs: &Vec<HTLCInfo2>, commit_sig: Signature, htlc_sigs: Vec<Signature>) -> (r: Result<(PublicKey, Option<SecretKey>), Status>)
+    requires commit_num < u64::MAX,
+    ensures
+        r.is_ok() ==> exists|mid: VxChanView| #[trigger] chan_validated_holder(old(chan)@, commit_num, feerate_sat_per_kw, m.to_local_value_sat, m.to_remote_value_sat,
+                offered_htlcs@, received_htlcs@, commit_sig, htlc_sigs@, mid)
+            && (r->Ok_0.1.is_some() ==> self.protocol_version < PROTOCOL_VERSION_REVOKE && chan_revoked(mid, commit_num, r, final(chan)@)),
+//@sub /offered_htlcs\.clone\(\)/ => vx_clone_htlcs(offered_htlcs)
+//@sub /received_htlcs\.clone\(\)/ => vx_clone_htlcs(received_htlcs)
+//@end
+
+    // what the closure above guarantees, on the channel registered under this handler's id (c0 before, mid after the validation, c1 after
+    // the closure)
+    pub open spec fn validate2_done(&self, n: u64, feerate: u32, to_local: u64, to_remote: u64, offered: Seq<HTLCInfo2>, received: Seq<HTLCInfo2>, sig: Signature,
+        htlc_sigs: Seq<Signature>, r: Result<(PublicKey, Option<SecretKey>), Status>) -> bool {
+        exists|c0: VxChanView, mid: VxChanView| node_channel(self.node, self.channel_id, c0)
+            && #[trigger] chan_validated_holder(c0, n, feerate, to_local, to_remote, offered, received, sig, htlc_sigs, mid)
+            && (r->Ok_0.1.is_some() ==> self.protocol_version < PROTOCOL_VERSION_REVOKE && exists|c1: VxChanView| #[trigger] chan_revoked(mid, n, r, c1))
+    }
+    #[verifier::external_body]
+    pub fn vx_with_channel_validate2(&self, m: &ValidateCommitmentTx2, commit_num: u64, feerate_sat_per_kw: u32, offered_htlcs: &Vec<HTLCInfo2>, received_htlcs: &Vec<HTLCInfo2>,
+        commit_sig: Signature, htlc_sigs: &Vec<Signature>) -> (r: Result<(PublicKey, Option<SecretKey>), Status>)
+        requires commit_num < u64::MAX,
+        ensures r.is_ok() ==> self.validate2_done(commit_num, feerate_sat_per_kw, m.to_local_value_sat, m.to_remote_value_sat, offered_htlcs@, received_htlcs@, commit_sig, htlc_sigs@, r)
+    { unimplemented!() }
+
+//@fn vls-protocol-signer/src/handler.rs :: impl Handler for ChannelHandler :: do_handle arm="Message::ValidateCommitmentTx2\(m\)" as=arm_validate_commitment_tx2 props=C01,C06,C05
+//@sig fn arm_validate_commitment_tx2(&self, m: ValidateCommitmentTx2) -> (r: Result<VxReply, Status>)
+    requires m.commitment_number < u64::MAX,
+    ensures
+        // a reply means: the channel of this handler accepted holder commitment number m.commitment_number with the fee rate, balances
+        // and HTLCs of the message (this node's HTLCs as the ones the holder OFFERS) and with the counterparty signatures of the message,
+        // each HTLC signature in its place; a secret in the reply is the channel's revocation answer for exactly that number
+        r.is_ok() ==> exists|p: PublicKey, os: Option<SecretKey>|
+            #[trigger] self.validate2_done(m.commitment_number, m.feerate, m.to_local_value_sat, m.to_remote_value_sat,
+                htlcs_offered_by_node(m.htlcs.v@), htlcs_offered_by_peer(m.htlcs.v@), sig_of_wire(m.signature.signature), sigs_of_wire(m.htlc_signatures.v@), Ok((p, os)))   //[C01.handler.validate2-content-and-signatures-of-the-message] [C06.handler.validate2-htlc-directions] [C05.handler.validate2-content-of-the-message] [C01.handler.validate2-reply-secret-is-the-revocation-of-this-number]
+            && r->Ok_0 == reply_validate_commitment(wire_of_point(p), if os.is_some() { Some(wire_of_secret(os->Some_0)) } else { None }),
+//@sub /(?s)m\s*\.htlc_signatures\s*\.iter\(\)\s*\.map\(\|s\| \{.*?\n\s*\}\)\s*\.collect\(\);/ => vx_htlc_sigs_from_wire(&m.htlc_signatures);
+//@sub /(?s)self\.node\.with_channel\(&self\.channel_id, \|chan\| \{.*\n\s*\}\)\?;/ => self.vx_with_channel_validate2(&m, commit_num, feerate_sat_per_kw, &offered_htlcs, &received_htlcs, commit_sig, &htlc_sigs)?;
+//@sub /(?s)Ok\(Box::new\(msgs::ValidateCommitmentTxReply \{\s*next_per_commitment_point: (.*?),\s*old_commitment_secret: (\w+),\s*\}\)\)/ => Ok(vx_reply_validate_commitment(\1, \2))
+//@sub /extract_htlcs\(&m\.htlcs\)/ => extract_htlcs(m.htlcs.v.as_slice())
+//@sub /let htlc_sigs: Vec<_> =/ => let htlc_sigs: Vec<Signature> =
+//@proof before /let old_secret_reply/
+        proof { assert(htlc_sigs@ =~= sigs_of_wire(m.htlc_signatures.v@)); }
+//@end
+
+// ------------------------------------------------ RevokeCommitmentTx
+//@fn vls-protocol-signer/src/handler.rs :: impl Handler for ChannelHandler :: do_handle closure=1 after="Message::RevokeCommitmentTx\(m\) =>" as=revoke_commitment_tx_closure props=C01,C02
+//@sig fn revoke_commitment_tx_closure(&self, chan: &mut VxChan, commit_num: u64) -> (r: Result<(PublicKey, Option<SecretKey>), Status>)
+    requires commit_num < u64::MAX,
+    ensures chan_revoked(old(chan)@, (commit_num + 1) as u64, r, final(chan)@),
+//@end
+
+    #[verifier::external_body]
+    pub fn vx_with_channel_revoke(&self, commit_num: u64) -> (r: Result<(PublicKey, Option<SecretKey>), Status>)
+        requires commit_num < u64::MAX,
+        ensures r.is_ok() ==> exists|c0: VxChanView, c1: VxChanView| node_channel(self.node, self.channel_id, c0) && #[trigger] chan_revoked(c0, (commit_num + 1) as u64, r, c1)
+    { unimplemented!() }
+
+//@fn vls-protocol-signer/src/handler.rs :: impl Handler for ChannelHandler :: do_handle arm="Message::RevokeCommitmentTx\(m\)" as=arm_revoke_commitment_tx props=C01,C02 optclosures
+//@sig fn arm_revoke_commitment_tx(&self, m: RevokeCommitmentTx) -> (r: Result<VxReply, Status>)
+    requires m.commitment_number < u64::MAX,
+    ensures
+        // the secret in the reply is the channel's answer to revoke_previous_holder_commitment(n + 1) on this handler's channel,
+        // n the message's number
+        r.is_ok() ==> exists|c0: VxChanView, c1: VxChanView, p: PublicKey, s: SecretKey| node_channel(self.node, self.channel_id, c0)
+            && #[trigger] chan_revoked(c0, (m.commitment_number + 1) as u64, Ok((p, Some(s))), c1)                                //[C01.handler.revoke-arm-secret-is-the-channels-answer-for-the-successor] [C02.handler.revoke-arm-goes-through-the-channel]
+            && r->Ok_0 == reply_revoke_commitment(wire_of_point(p), wire_of_secret(s)),
+//@sub /(?s)self\.node\.with_channel\(&self\.channel_id, \|chan\| \{.*?\n\s*\}\)\?;/ => self.vx_with_channel_revoke(commit_num)?;
+// (rewrite R22 has turned `old_secret.map(|s| DisclosedSecret(..))` into a match before this rule applies)
+//@sub /\(match old_secret \{ Some\(s\) => Some\(DisclosedSecret\(s\[\.\.\]\.try_into\(\)\.vx_expect\(\)\)\), None => None \}\)/ => vx_disclose(old_secret)
+//@sub /(?s)Ok\(Box::new\(msgs::RevokeCommitmentTxReply \{\s*next_per_commitment_point,\s*old_commitment_secret,\s*\}\)\)/ => Ok(vx_reply_revoke_commitment(next_per_commitment_point, old_commitment_secret))
+//@end
+
+// ------------------------------------------------ SignMutualCloseTx2
+//@fn vls-protocol-signer/src/handler.rs :: impl Handler for ChannelHandler :: do_handle closure=1 after="Message::SignMutualCloseTx2\(m\) =>" as=sign_mutual_close_tx2_closure props=C07,C02
+//@sig fn sign_mutual_close_tx2_closure(&self, chan: &mut VxChan, m: &SignMutualCloseTx2, local_wallet_path_hint: VxPath) -> (r: Result<Signature, Status>)
+    ensures chan_signed_mutual_close2(old(chan)@, m.to_local_value_sat, m.to_remote_value_sat, script_opt_of(m.local_script), script_opt_of(m.remote_script),
+        local_wallet_path_hint, r, final(chan)@),                                                                                  //[C07.handler.close2-closure-one-call-holder-values-and-script-first]
+//@end
+
+    #[verifier::external_body]
+    pub fn vx_with_channel_close2(&self, m: &SignMutualCloseTx2, local_wallet_path_hint: VxPath) -> (r: Result<Signature, Status>)
+        ensures r.is_ok() ==> exists|c0: VxChanView, c1: VxChanView| node_channel(self.node, self.channel_id, c0)
+            && #[trigger] chan_signed_mutual_close2(c0, m.to_local_value_sat, m.to_remote_value_sat, script_opt_of(m.local_script), script_opt_of(m.remote_script), local_wallet_path_hint, r, c1)
+    { unimplemented!() }
+
+//@fn vls-protocol-signer/src/handler.rs :: impl Handler for ChannelHandler :: do_handle arm="Message::SignMutualCloseTx2\(m\)" as=arm_sign_mutual_close_tx2 props=C07,C02
+//@sig fn arm_sign_mutual_close_tx2(&self, m: SignMutualCloseTx2) -> (r: Result<VxReply, Status>)
+    ensures
+        // the closing signature in the reply is the channel's answer for the message's values and scripts, the LOCAL ones as the holder's
+        r.is_ok() ==> exists|c0: VxChanView, c1: VxChanView, sig: Signature| node_channel(self.node, self.channel_id, c0)
+            && #[trigger] chan_signed_mutual_close2(c0, m.to_local_value_sat, m.to_remote_value_sat, script_opt_of(m.local_script), script_opt_of(m.remote_script),
+                path_of_hint(m.local_wallet_path_hint), Ok(sig), c1)                                                               //[C07.handler.close2-values-and-scripts-of-the-message]
+            && r->Ok_0 == reply_sign_tx(sig),
+//@sub /(?s)self\.node\.with_channel\(&self\.channel_id, \|chan\| \{.*?\n\s*\}\)\?/ => self.vx_with_channel_close2(&m, local_wallet_path_hint)?
+//@sub /Ok\(Box::new\(msgs::SignTxReply \{ signature: (.*?) \}\)\)/ => Ok(vx_reply_sign_tx(\1))
 //@end
 
 } // impl
